@@ -40,6 +40,8 @@ CLAIMED = {
          "All (shape, view root, query, search kind) combinations of the bounded universe, including queries covering or beside the view and virtual roots."),
  "C13": ("model_checking", "TLC: each mutable traversal = read-only twin and write-through changes exactly the yielded entries; replayed with all &mut held simultaneously",
          "Write through the k-th reference only (every k) or through all, for every mutable traversal of maps and mutable views."),
+ "C14": ("model_checking", "Borrow.tla: every client program of <= 4/5 API calls judged AliasFree/Typed by TLC (Typed => AliasFree checked), each compiled by rustc; thread-capability matrix; Sched.tla interleavings + logs of real threads; alias rows with address checks",
+         "VIOLATION iff rustc accepts a program the model judges aliasing or a thread transfer it judges unsound; all references obtainable at once are checked for pairwise distinct addresses on every shape of the bounded universe; all interleavings of workers on disjoint views in the model, real threaded runs validated against the same step relation."),
  "C15": ("model_checking", "TLC invariants WF / IsTree / canonical shape; tree observed through views compared after every replayed transition",
          "Canonical shape is defined declaratively from the key set; every transition's resulting tree is compared with the code's view walk."),
  "C16": ("model_checking", "TLC invariant Partition + step property 'arena grows only when no slot is free'; hook snapshot compared after every replayed transition",
